@@ -105,11 +105,35 @@ class _NoEval(Exception):
 
 
 def _ival(n, env, lets, depth=0):
-    """integer value of an expression under env (local name -> int); unknown locals are evaluated from their single `let`"""
+    """integer value of an expression under env (local name -> int; the special key "__leaf__" may hold a callable
+    render -> int for otherwise unknown leaves); unknown locals are evaluated from their single `let`"""
     n = hirq.strip(n)
     k = n.get("k")
     if depth > 12:
         raise _NoEval("depth")
+    if k == "bin" and n["op"] in ("/", "%"):
+        a, b = _ival(n["l"], env, lets, depth + 1), _ival(n["r"], env, lets, depth + 1)
+        if b == 0:
+            raise _NoEval("division by zero")
+        return a // b if n["op"] == "/" else a % b
+    if k == "mcall" and n["m"] == "div_ceil" and len(n["args"]) == 1:
+        a, b = _ival(n["recv"], env, lets, depth + 1), _ival(n["args"][0], env, lets, depth + 1)
+        if b == 0:
+            raise _NoEval("division by zero")
+        return -(-a // b)
+    leaf = env.get("__leaf__")
+    if leaf is not None and k in ("field", "mcall", "call", "index") and not (k == "mcall" and n["m"] in ("min", "max", "saturating_sub", "wrapping_sub", "checked_sub")):
+        v = leaf(hirq.render(n))
+        if v is not None:
+            return v
+    if leaf is not None and k == "path" and "def" in n["res"]:
+        v = leaf(n["res"]["def"].split("::")[-1])
+        if v is not None:
+            return v
+    if leaf is not None and k == "path" and "local" in n["res"] and n["res"]["local"] not in env and n["res"]["local"] not in lets:
+        v = leaf(n["res"]["local"])
+        if v is not None:
+            return v
     if k == "lit" and "int" in n["v"]:
         return n["v"]["int"]
     if k == "cast":
@@ -156,6 +180,12 @@ def _bval(n, env, lets, depth=0):
         return not _bval(n["e"], env, lets, depth + 1)
     if k == "path" and "local" in n["res"] and n["res"]["local"] in lets:
         return _bval(lets[n["res"]["local"]], env, lets, depth + 1)
+    if k == "mcall" and n["m"] == "is_empty" and env.get("__leaf__") is not None:
+        v = env["__leaf__"](hirq.render(hirq.strip(n["recv"])) + ".len()")
+        if v is not None:
+            return v == 0
+    if k == "lit" and "bool" in n["v"]:
+        return n["v"]["bool"]
     raise _NoEval(hirq.render(n)[:60])
 
 
